@@ -7,7 +7,7 @@ let parse_opts (s : string) : Mount.server_option list =
   if s = "-" || s = "" then [] else
   Stdlib.List.map (fun o ->
       let n = String.length o in
-      if o = "t" then Mount.OTLS
+      if o = "t" || o = "T" then Mount.OTLS
       else if o = "m" then Mount.OMux None
       else if o = "m0" then Mount.OMux (Some [])
       else if n >= 2 && String.sub o 0 2 = "m:" then
